@@ -50,6 +50,18 @@ def _point(rng, N, kind):
     return np.round(rng.normal(size=N) * 1.5, 3)
 
 
+def _typed(rng, x, kind):
+    """an integer point as a caller may supply it: float array, int64 / int32 / int16 array, list of Python ints"""
+    if kind != 'int':
+        return x.copy()
+    k = int(rng.integers(5))
+    if k == 0:
+        return x.copy()
+    if k == 4:
+        return [int(t) for t in x]
+    return x.astype([np.int64, np.int32, np.int16][k - 1])
+
+
 def _close(got, ref, scale, tau=TAU):
     """got float; ref, scale Fractions"""
     if not np.isfinite(got):
@@ -72,7 +84,7 @@ def _jac(ctx, p, rng):
     style = int(rng.integers(6))
     # --- init_jacobian / extract_jacobian
     try:
-        X = UTPM.init_jacobian(x.copy() if rng.random() < .5 else x.astype(int) if p['point'] == 'int' else x.copy())
+        X = UTPM.init_jacobian(_typed(rng, x, p['point']))
         Y = PP.evaluate(algopy, polys, X, style)
         J = UTPM.extract_jacobian(Y)
     except Exception as e:
@@ -93,10 +105,7 @@ def _jac(ctx, p, rng):
     ctx.ok('jacobian', ('jac', N, M, p['point'], style), noise=worst)
     # --- init_jac_vec / extract_jac_vec
     try:
-        xarg = x.copy()
-        if p['point'] == 'int':
-            xarg = [x.astype(int), [int(t) for t in x], x.copy()][style % 3]       # int ndarray / list of ints / float
-        X = UTPM.init_jac_vec(xarg, v.copy())
+        X = UTPM.init_jac_vec(_typed(rng, x, p['point']), v.copy())
         Y = PP.evaluate(algopy, polys, X, -1 - style)          # always a vector
         Jv = np.asarray(UTPM.extract_jac_vec(Y))
     except Exception as e:
@@ -119,11 +128,13 @@ def _hess(ctx, p, rng):
     v = np.round(rng.normal(size=N) * 1.5, 3); vq = [Fraction(float(t)) for t in v]
     style = int(rng.integers(6))
     try:
-        xh = x.copy()
+        xh = _typed(rng, x, p['point'])
+        if isinstance(xh, list):
+            xh = np.array(xh)
         if N >= 4 and N % 2 == 0 and style % 2:
-            xh = np.asfortranarray(x.reshape(2, N // 2))          # a non-C-ordered 2-D array: init_hessian ravels it in logical order
+            xh = np.asfortranarray(xh.reshape(2, N // 2))          # a non-C-ordered 2-D array: init_hessian ravels it in logical order
         elif N >= 4 and N % 2 == 0:
-            xh = np.ascontiguousarray(x.reshape(N // 2, 2).T).T     # transposed view
+            xh = np.ascontiguousarray(xh.reshape(N // 2, 2).T).T     # transposed view
         X = UTPM.init_hessian(xh)
         Y = PP.evaluate(algopy, [poly], X, style)
         H = np.asarray(UTPM.extract_hessian(N, Y))
@@ -143,7 +154,7 @@ def _hess(ctx, p, rng):
                 ctx.violation('hessian:value:%s' % ('diag' if i == j else 'offdiag'), {'N': N, 'i': i, 'j': j, 'got': float(H[i, j]), 'want': float(Hq[i][j](xq)), 'x': x.tolist()}); return
     ctx.ok('hessian', ('hess', N, p['point'], style), noise=worst)
     try:
-        X = UTPM.init_hess_vec(x.astype(int) if (p['point'] == 'int' and style % 2) else x.copy(), v.copy())
+        X = UTPM.init_hess_vec(_typed(rng, x, p['point']), v.copy())
         Y = PP.evaluate(algopy, [poly], X, style)
         Hv = np.asarray(UTPM.extract_hess_vec(N, Y))
     except Exception as e:
@@ -219,26 +230,29 @@ def _smooth_pair(rng, N):
 
     def f_alg(x):
         s = sum(float(a[i]) * x[i] for i in range(N)); t = sum(float(b[i]) * x[i] for i in range(N)); u = sum(float(c[i]) * x[i] for i in range(N))
+        direct = algopy.sin(x[0]) * x[N - 1] / 3 + algopy.exp(x[0] / 2)        # the seed enters nonlinear functions directly
         if k == 0:
-            return algopy.sin(s) * algopy.exp(t) + algopy.log(1.5 + u * u)
+            return algopy.sin(s) * algopy.exp(t) + algopy.log(1.5 + u * u) + direct
         if k == 1:
-            return algopy.cos(s * t) / (2.0 + u * u) + algopy.tanh(t)
-        return algopy.sqrt(2.0 + s * s) * algopy.arctan(t) + algopy.special.erf(u)
+            return algopy.cos(s * t) / (2.0 + u * u) + algopy.tanh(t) + direct
+        return algopy.sqrt(2.0 + s * s) * algopy.arctan(t) + algopy.special.erf(u) + direct
 
     def f_mp(*x):
         s = sum(mp.mpf(float(a[i])) * x[i] for i in range(N)); t = sum(mp.mpf(float(b[i])) * x[i] for i in range(N)); u = sum(mp.mpf(float(c[i])) * x[i] for i in range(N))
+        direct = mp.sin(x[0]) * x[N - 1] / 3 + mp.exp(x[0] / 2)
         if k == 0:
-            return mp.sin(s) * mp.exp(t) + mp.log(mp.mpf('1.5') + u * u)
+            return mp.sin(s) * mp.exp(t) + mp.log(mp.mpf('1.5') + u * u) + direct
         if k == 1:
-            return mp.cos(s * t) / (2 + u * u) + mp.tanh(t)
-        return mp.sqrt(2 + s * s) * mp.atan(t) + mp.erf(u)
+            return mp.cos(s * t) / (2 + u * u) + mp.tanh(t) + direct
+        return mp.sqrt(2 + s * s) * mp.atan(t) + mp.erf(u) + direct
     return f_alg, f_mp, k
 
 
 def _smooth(ctx, p, rng):
     N = p['N']
     f_alg, f_mp, k = _smooth_pair(rng, N)
-    x = np.round(rng.normal(size=N), 3)
+    pk = 'int' if rng.random() < .5 else 'real'
+    x = rng.integers(-2, 3, size=N).astype(float) if pk == 'int' else np.round(rng.normal(size=N), 3)
     xm = [mp.mpf(float(v)) for v in x]
 
     def part(alpha):
@@ -246,10 +260,10 @@ def _smooth(ctx, p, rng):
             return f_mp(*xm)
         return mp.diff(f_mp, tuple(xm), tuple(alpha)) if N > 1 else mp.diff(f_mp, xm[0], alpha[0])
     try:
-        J = np.asarray(UTPM.extract_jacobian(f_alg(UTPM.init_jacobian(x.copy()))))
-        H = np.asarray(UTPM.extract_hessian(N, f_alg(UTPM.init_hessian(x.copy()))))
+        J = np.asarray(UTPM.extract_jacobian(f_alg(UTPM.init_jacobian(_typed(rng, x, pk)))))
+        H = np.asarray(UTPM.extract_hessian(N, f_alg(UTPM.init_hessian(_typed(rng, x, pk)))))
         d = 3
-        T = np.asarray(UTPM.extract_tensor(N, f_alg(UTPM.init_tensor(d, x.copy())), as_full_matrix=False))
+        T = np.asarray(UTPM.extract_tensor(N, f_alg(UTPM.init_tensor(d, _typed(rng, x, pk))), as_full_matrix=False))
     except Exception as e:
         ctx.violation('smooth:raises:' + type(e).__name__, {'N': N, 'template': k, 'error': repr(e)[:200]}); return
     gscale = max(1.0, max(abs(float(part([int(i == j) for j in range(N)]))) for i in range(N)))
